@@ -352,14 +352,20 @@ def _check_split(case):
     width, rate, ivs, oi, pi, flag, npi, ns = case[:8]
     off = F(1, 3) if len(case) > 8 and case[8] else F(0)  # entries moved off the sample grid by 1/3 sample
     nbig = case[9] if len(case) > 9 else None  # the size axis: a longer recording (nbig samples) so that the tier can hold 10+ entries
+    dotted = len(case) > 10 and case[10]  # dots in the names: a recording "take.2.final.wav", labels "L.0", an output directory "out.d"
     d = scratch_dir()
     fn = _wavfile(width, rate, "split") if nbig is None else _big_wavfile(width, rate, nbig)
+    if dotted:
+        fn2 = os.path.join(d, "c17.take.2.final.wav")
+        shutil.copyfile(fn, fn2)
+        fn = fn2
     base = os.path.splitext(os.path.basename(fn))[0]
     tgfn = os.path.join(d, "c17-split.TextGrid")
-    od = os.path.join(d, "c17-out")
+    od = os.path.join(d, "c17-out.d" if dotted else "c17-out")
     shutil.rmtree(od, ignore_errors=True)
     dur = (N if nbig is None else nbig) / rate
-    E = [(float((F(a) + off) / rate), float((F(b) - off) / rate), "L%d" % i) for i, (a, b) in enumerate(ivs)]
+    LAB = "L.%d" if dotted else "L%d"
+    E = [(float((F(a) + off) / rate), float((F(b) - off) / rate), LAB % i) for i, (a, b) in enumerate(ivs)]
     O = [(a / rate, b / rate, "O%d" % i) for i, (a, b) in enumerate(OTHERS[oi])]
     P = [(t / rate, "P%d" % i) for i, t in enumerate(PTS[pi])]
     tg = Textgrid()
@@ -381,7 +387,7 @@ def _check_split(case):
     s = list(SAMPLES) if nbig is None else _big_samples(nbig, width)
     digits = int(math.floor(math.log10(len(ivs)))) + 1
     for i, ((a, b), (rs, re_, name)) in enumerate(zip(ivs, r)):
-        label = "L%d" % i
+        label = LAB % i
         expname = {None: f"{base}_%0{digits}d" % i, "append": f"{base}_%0{digits}d_{label}" % i, "append_no_i": f"{base}_{label}",
                    "label": label}[ns] + ".wav"
         if name != expname or (rs, re_) != (E[i][0], E[i][1]):
@@ -396,6 +402,9 @@ def _check_split(case):
         if info["declared_data_bytes"] != info["actual_data_bytes"]:
             viols.append(Viol("split-wav-sizes", f"{tag}: {name}: data chunk declares {info['declared_data_bytes']} bytes, holds {info['actual_data_bytes']}"))
         if flag:
+            if not os.path.exists(os.path.join(od, name[:-4] + ".TextGrid")):
+                viols.append(Viol("split-tg-missing", f"{tag}: no {name[:-4]}.TextGrid next to {name}; the directory holds {files}"))
+                continue
             with io.open(os.path.join(od, name[:-4] + ".TextGrid"), encoding="utf-8") as fd:
                 text = fd.read()
             try:
@@ -499,6 +508,11 @@ def parts(tier):
                                     yield (width, rate, ivs, oi, pi, flag, npi, ns)
                                     if ns is None and all(b - a >= 2 for a, b in ivs):
                                         yield (width, rate, ivs, oi, pi, flag, npi, ns, True)
+        # dots in file names, labels and the output directory
+        for ivs in nonempty[::3]:
+            for flag in (False, True, "w"):
+                for ns in (None, "append", "append_no_i", "label"):
+                    yield (2, 8, ivs, 0, 0, flag, False, ns, False, None, True)
         # the size axis: 9 .. 101 target entries (file numbering with one, two and three digits) on a longer recording
         for k in (9, 10, 11, 12, 100, 101):
             ivs = tuple((3 * i, 3 * i + 2) for i in range(k))
